@@ -324,6 +324,22 @@ Fixpoint first_matching (subject : str) (items : list (list ast)) (idx : nat) : 
   | pats :: r => if item_matches_b subject pats then Some idx else first_matching subject r (S idx)
   end.
 
+(* all the bodies that run: after ;; nothing more, after ;& the next body
+   unconditionally, after ;;& matching resumes with the next item *)
+Fixpoint spec_case_run (subject : str) (items : list (list ast * continuation)) (idx : nat)
+    (falling : bool) : list nat :=
+  match items with
+  | [] => []
+  | (pats, cont) :: r =>
+      if falling || item_matches_b subject pats then
+        idx :: match cont with
+               | CBreak => []
+               | CFallThrough => spec_case_run subject r (S idx) true
+               | CContinue => spec_case_run subject r (S idx) false
+               end
+      else spec_case_run subject r (S idx) false
+  end.
+
 (* ------------------------------------------------------------------ *)
 (* ORACLE: clauses about Pattern::is_match / find / rfind               *)
 
@@ -510,5 +526,5 @@ Definition glob_rx (r : rx) : bool := forallb glob_node r.
 
 (* the patterns of an item, with their parsed forms *)
 Definition item_parsed (pats : list (list pchar)) (asts : list ast) : Prop :=
-  Forall2 (fun p a => parse_pattern p = Some a /\ single_width a = true) pats asts.
+  Forall2 (fun p a => parse_pattern p = Some a /\ plain_complements a = true) pats asts.
 
